@@ -306,9 +306,9 @@ fn finding_of(c: &SCase, op: &str, ctor: &str, s_var: bool) -> Option<&'static s
     if matches!(op, "assert" | "index") && (c.s.contains('\0') || c.q.contains('\0')) {
         return Some(NUL_HEAD_SIG);
     }
-    if (is_packed(ctor) && suffix_copy_risky(&c.s)) || (is_packed(&c.qctor) && suffix_copy_risky(&c.q)) {
-        return Some(SUFFIX_COPY_SIG);
-    }
+    // (the suffix-copy finding SUFFIX_COPY_SIG is fixed in the tree under test, commit 64d8fe6: its
+    // input class is generated again; the stored witness is a regression replay)
+    let _ = (SUFFIX_COPY_SIG, ctor, suffix_copy_risky as fn(&str) -> bool, derisk as fn(&str) -> String, is_packed as fn(&str) -> bool);
     None
 }
 
